@@ -46,6 +46,8 @@ type Engine struct {
 	loopCache map[*ssa.Function]*loopInfo
 	constTabs map[*ssa.Global]*constTable
 	debugNames map[*ssa.Function]map[string][]ssa.Value
+	// LoopNamesRef: names the header phis of the loops under contract carried on the pinned tree (loopnames.go)
+	LoopNamesRef LoopNames
 
 	Warnings []string
 	RepoDir  string
